@@ -12,10 +12,12 @@ except ImportError:
     _HAVE_PYWT = False
 
 COEFF_CACHE = {}
+from pytorch_wavelets._verif import point as _vp  # noqa
 
 
 def _load_from_file(basename, varnames):
 
+    _vp('coeffs.load', table=basename, hit=basename in COEFF_CACHE)
     try:
         mat = COEFF_CACHE[basename]
     except KeyError:
